@@ -184,7 +184,48 @@ func c14Fields(c *Ctx) {
 					}
 				}
 			default:
-				nDef, nParsed = -10, -10
+				// one function of the version package doing exactly that: the default for the empty string, else the
+				// parser's own results; its error checked here
+				okWrap := false
+				if exv, isEx := throughCell(strip(lf.Val)).(*ssa.Extract); isEx && exv.Index == 0 {
+					if cv, isCall := exv.Tuple.(*ssa.Call); isCall && len(cv.Call.Args) == 1 && w.Expr(cv.Call.Args[0]) == attrs+".SSHClientVersion" {
+						if h := cv.Call.StaticCallee(); h != nil && w.InRepo(h) && h.Blocks != nil && strings.HasSuffix(h.Pkg.Pkg.Path(), "sshutils/version") && errorResultIndex(h) == 1 {
+							hf := w.factsOf(h)
+							good, sawDef, sawParse := true, false, false
+							for _, r := range liveReturns(h) {
+								e0 := w.ExprIn(h, r.Results[0])
+								switch {
+								case e0 == "call<"+RepoMod+"/sshutils/version.NewDefaultVersion>()" && isNilConst(strip(r.Results[1])):
+									// only for the empty string
+									emptyOnly := false
+									for l := range hf.in[r.Block()] {
+										if bin, isBin := l.V.(*ssa.BinOp); isBin && bin.Op == token.EQL && l.Pol && throughCell(strip(bin.X)) == ssa.Value(h.Params[0]) {
+											if sc, isS := strConst(bin.Y); isS && sc == "" {
+												emptyOnly = true
+											}
+										}
+									}
+									if !emptyOnly {
+										good = false
+									}
+									sawDef = true
+								case e0 == "call<"+RepoMod+"/sshutils/version.Unmarshal>(p0)#0" && w.ExprIn(h, r.Results[1]) == "call<"+RepoMod+"/sshutils/version.Unmarshal>(p0)#1":
+									sawParse = true
+								default:
+									good = false
+								}
+							}
+							if isNil, known := f.KnownNil(lit.Block(), extractOf(cv, 1)); good && sawDef && sawParse && known && isNil {
+								okWrap = true
+							}
+						}
+					}
+				}
+				if okWrap {
+					nDef, nParsed = nDef+1, nParsed+1
+				} else {
+					nDef, nParsed = -10, -10
+				}
 			}
 		}
 		okVer = nDef == 1 && nParsed == 1
@@ -265,6 +306,60 @@ func c14Fields(c *Ctx) {
 			}
 		}
 		var maj, min ssa.Value
+		// the 16-bit parse written once in a helper of the package: helper(x) = (uint16(n), nil) with n, err :=
+		// ParseUint(x, _, 16) and the error handed back
+		direct16 := map[ssa.Value]bool{}
+		for _, call := range callsIn(vu) {
+			cv, ok := call.(*ssa.Call)
+			if !ok || cut == nil || len(cv.Call.Args) != 1 {
+				continue
+			}
+			h := cv.Call.StaticCallee()
+			if h == nil || !w.InRepo(h) || h.Blocks == nil || h.Signature.Results().Len() != 2 || errorResultIndex(h) != 1 {
+				continue
+			}
+			var pu *ssa.Call
+			nPU := 0
+			for _, hc := range callsTo(h, "strconv.ParseUint") {
+				pu, _ = hc.(*ssa.Call)
+				nPU++
+			}
+			if nPU != 1 || pu == nil || throughCell(strip(pu.Call.Args[0])) != ssa.Value(h.Params[0]) {
+				continue
+			}
+			if bits, _ := intConst(pu.Call.Args[2]); bits != 16 {
+				continue
+			}
+			if !w.ErrEdgeEnds(h, extractOf(pu, 1)) {
+				continue
+			}
+			okRet := true
+			for _, r := range w.MayBeNilReturns(h) {
+				cvt, isConv := strip(r.Results[0]).(*ssa.Convert)
+				if !isConv || cvt.X != extractOf(pu, 0) {
+					okRet = false
+				}
+			}
+			if !okRet {
+				continue
+			}
+			if ex, isEx := w.canon(vu, cv.Call.Args[0]).(*ssa.Extract); isEx && ex.Tuple == ssa.Value(cut) {
+				val := extractOf(cv, 0)
+				switch ex.Index {
+				case 0:
+					maj = val
+					okParse++
+				case 1:
+					min = val
+					okParse++
+				}
+				direct16[val] = true
+				if idx == nil {
+					idx = cut
+				}
+				c.Check(w.ErrEdgeEnds(vu, extractOf(cv, 1)), "R5.version", "version.Unmarshal|"+w.Short(cv.Call.Args[0])+" parse error returned", w.Pos(cv.Pos()), "error edge returns", "a number that does not fit 16 bits is not refused")
+			}
+		}
 		for _, call := range callsTo(vu, "strconv.ParseUint") {
 			cv := call.(*ssa.Call)
 			bits, _ := intConst(cv.Call.Args[2])
@@ -308,6 +403,9 @@ func c14Fields(c *Ctx) {
 				a0, ok0 := cv.Call.Args[0].(*ssa.Convert)
 				a1, ok1 := cv.Call.Args[1].(*ssa.Convert)
 				okNew = ok0 && ok1 && a0.X == maj && a1.X == min
+				if direct16[maj] && direct16[min] {
+					okNew = throughCell(strip(cv.Call.Args[0])) == maj && throughCell(strip(cv.Call.Args[1])) == min
+				}
 			}
 		}
 		c.Check(okNew, "R5.version", "version.Unmarshal|New(major, minor) in that order", w.FnPos(vu), "New(uint16(major), uint16(minor))", "major and minor are swapped or replaced")
